@@ -138,6 +138,18 @@ Section V.
         && spec_session rs os
     | _, _ => true
     end.
+  (* several callables: steps of the same callable (same arguments) return the same class, steps of different callables
+     never share a class *)
+  Fixpoint spec_pair_labels (steps : list nat) (obs : list (res nat)) : bool :=
+    match steps, obs with
+    | k :: ks, o :: os =>
+        forallb (fun ko => match o, snd ko with
+                           | Ok a, Ok b => Bool.eqb (Nat.eqb k (fst ko)) (Nat.eqb a b)
+                           | _, _ => true
+                           end) (combine ks os)
+        && spec_pair_labels ks os
+    | _, _ => true
+    end.
 End V.
 
 Arguments kv_eqb {V}. Arguments bind_eqb {V}. Arguments vlist_eqb {V}. Arguments vopt_eqb {V}. Arguments same_dict {V}.
